@@ -1,2 +1,163 @@
-(* C15 property theorems (placeholder while the proofs are being written) *)
-From YK Require Import Conf.Str Conf.Config Conf.Validate Conf.Load Conf.WF.
+(* C15  Configuration validation is sound: what it accepts is loadable and well-formed.
+   Model: Conf/Validate.v (configvalidator.go), Conf/Load.v (load path), Conf/WF.v (documented rules).
+   [compiles] is the external predicate "regexp.Compile succeeds" (placement filters); every theorem holds for any.
+   Refuted clauses carry their witness; each witness is replayed on the real code (corpus/conf.json). *)
+From Coq Require Import List NArith ZArith Bool.
+From YK Require Import Base.Res Conf.Str Conf.Config Conf.Validate Conf.Load Conf.WF.
+From YK Require Import Conf.ConfSound Conf.ConfSoundRes Conf.ConfSoundLimits Conf.ConfSoundRules Conf.ConfLoad Conf.ConfPerm2 Conf.ConfPerm3 Conf.ConfMain.
+Import ListNotations.
+
+(* ---- validate_sound : Validate c = VOk c' -> WF c'   (conjunct by conjunct) ---- *)
+Theorem validate_sound_root : forall compiles c c',
+  Validate compiles c = VOk c' -> Forall (fun p => wf_root p = true) c'.
+Proof. exact ConfMain.validate_sound_root. Qed.
+Print Assumptions validate_sound_root.
+
+Theorem validate_sound_names : forall compiles c c',
+  Validate compiles c = VOk c' -> Forall (fun p => wf_names (rootq p) = true) c'.
+Proof. exact ConfMain.validate_sound_names. Qed.
+Print Assumptions validate_sound_names.
+
+Theorem validate_sound_quantities : forall compiles c c',
+  Validate compiles c = VOk c' -> Forall (fun p => wf_quantities (rootq p) = true) c'.
+Proof. exact ConfMain.validate_sound_quantities. Qed.
+Print Assumptions validate_sound_quantities.
+
+Theorem validate_sound_max_parent : forall compiles c c',
+  Validate compiles c = VOk c' -> Forall (fun p => wf_max_parent (rootq p) = true) c'.
+Proof. exact ConfMain.validate_sound_max_parent. Qed.
+Print Assumptions validate_sound_max_parent.
+
+Theorem validate_sound_gua_max : forall compiles c c',
+  Validate compiles c = VOk c' -> Forall (fun p => wf_gua_max (rootq p) = true) c'.
+Proof. exact ConfMain.validate_sound_gua_max. Qed.
+Print Assumptions validate_sound_gua_max.
+
+Theorem validate_sound_sum_gua : forall compiles c c',
+  Validate compiles c = VOk c' -> Forall (fun p => wf_sum_gua (rootq p) = true) c'.
+Proof. exact ConfMain.validate_sound_sum_gua. Qed.
+Print Assumptions validate_sound_sum_gua.
+
+Theorem validate_sound_maxapps : forall compiles c c',
+  Validate compiles c = VOk c' -> Forall (fun p => wf_maxapps (rootq p) = true) c'.
+Proof. exact ConfMain.validate_sound_maxapps. Qed.
+Print Assumptions validate_sound_maxapps.
+
+Theorem validate_sound_limit_queue : forall compiles c c',
+  Validate compiles c = VOk c' -> Forall (fun p => wf_limit_queue (rootq p) = true) c'.
+Proof. exact ConfMain.validate_sound_limit_queue. Qed.
+Print Assumptions validate_sound_limit_queue.
+
+(* conjuncts 9, 10 (limits within the limit that applies on every ancestor): refuted, partial form proved *)
+Theorem validate_sound_limit_anc_res_refuted :
+  exists c c', Validate (fun _ => false) c = VOk c' /\ existsb (fun p => negb (wf_limit_anc_res (rootq p))) c' = true.
+Proof. exact sound_limit_anc_res_refuted. Qed.
+Print Assumptions validate_sound_limit_anc_res_refuted.
+
+Theorem validate_sound_limit_anc_apps_refuted :
+  exists c c', Validate (fun _ => false) c = VOk c' /\ existsb (fun p => negb (wf_limit_anc_apps (rootq p))) c' = true.
+Proof. exact sound_limit_anc_apps_refuted. Qed.
+Print Assumptions validate_sound_limit_anc_apps_refuted.
+
+Theorem validate_sound_limits_partial : forall compiles c c',
+  Validate compiles c = VOk c' ->
+  Forall (fun p => wf_limit_named_res (rootq p) = true /\ wf_limit_wild_res (rootq p) = true /\
+                   wf_limit_named_apps (rootq p) = true /\ wf_limit_wild_apps (rootq p) = true) c'.
+Proof. exact ConfMain.validate_sound_limits_partial. Qed.
+Print Assumptions validate_sound_limits_partial.
+
+(* conjunct 11 (placement rules resolvable): refuted, partial form proved *)
+Theorem validate_sound_rules_refuted :
+  exists c c', Validate (fun _ => false) c = VOk c' /\ existsb (fun p => negb (wf_rules (rootq p) (p_rules p))) c' = true.
+Proof. exact sound_rules_refuted. Qed.
+Print Assumptions validate_sound_rules_refuted.
+
+Theorem validate_sound_rules_partial : forall compiles c c',
+  Validate compiles c = VOk c' ->
+  Forall (fun p => forallb (fun r => resolvable (rootq p) r || rule_offroot r) (p_rules p) = true) c'.
+Proof. exact ConfMain.validate_sound_rules_partial. Qed.
+Print Assumptions validate_sound_rules_partial.
+
+(* the whole: refuted as stated, proved in the partial form and under the side conditions that exclude the windows *)
+Theorem validate_sound_refuted : exists c c', Validate (fun _ => false) c = VOk c' /\ ~ WF c'.
+Proof. exact ConfMain.validate_sound_refuted. Qed.
+Print Assumptions validate_sound_refuted.
+
+Theorem validate_sound_partial : forall compiles c c',
+  Validate compiles c = VOk c' -> Forall WFp_proved c'.
+Proof. exact ConfMain.validate_sound_partial. Qed.
+Print Assumptions validate_sound_partial.
+
+Theorem validate_sound_conditional : forall compiles c c',
+  Validate compiles c = VOk c' ->
+  Forall (fun p => wf_limit_anc_res (rootq p) = true /\ wf_limit_anc_apps (rootq p) = true /\
+                   forallb (fun r => negb (rule_offroot r)) (p_rules p) = true) c' -> WF c'.
+Proof. exact ConfMain.validate_sound_conditional. Qed.
+Print Assumptions validate_sound_conditional.
+
+(* ---- validate_loadable : Validate c = VOk c' -> Load c' <> Error /\ Load c' <> Crash  (new and running scheduler) ---- *)
+Theorem validate_loadable_refuted_rules :
+  exists c c', Validate (fun _ => false) c = VOk c' /\ LoadNew c' = LOk false /\ LoadReload [s_default] c' = LErr LERule.
+Proof. exact ConfLoad.validate_loadable_refuted_rules. Qed.
+Print Assumptions validate_loadable_refuted_rules.
+
+Theorem validate_loadable_refuted_partition :
+  exists c c', Validate (fun _ => false) c = VOk c' /\ LoadNew c' = LOk true /\ LoadReload [s_default] c' = LHang.
+Proof. exact ConfLoad.validate_loadable_refuted_partition. Qed.
+Print Assumptions validate_loadable_refuted_partition.
+
+Theorem validate_loadable_partial : forall compiles c c' base,
+  Validate compiles c = VOk c' -> base <> [] ->
+  rules_buildable c' = true -> keeps_partitions base c' = true ->
+  loaded_ok (LoadNew c') = true /\ loaded_ok (LoadReload base c') = true.
+Proof. exact ConfLoad.validate_loadable_partial. Qed.
+Print Assumptions validate_loadable_partial.
+
+(* without side conditions: the only possible outcomes *)
+Theorem validate_load_errors : forall compiles c c' base,
+  Validate compiles c = VOk c' -> base <> [] ->
+  (LoadNew c' = LOk true \/ LoadNew c' = LOk false) /\
+  (LoadReload base c' = LOk true \/ LoadReload base c' = LOk false \/ LoadReload base c' = LErr LERule \/ LoadReload base c' = LHang).
+Proof. exact ConfLoad.validate_load_errors. Qed.
+Print Assumptions validate_load_errors.
+
+(* ---- validate_perm ---- *)
+Theorem validate_perm : forall compiles c c',
+  cperm c c' -> accepts (Validate compiles c) = accepts (Validate compiles c').
+Proof. exact ConfPerm3.validate_perm. Qed.
+Print Assumptions validate_perm.
+
+(* ---- the repaired defects (finding 14), shown on the pinned check functions ---- *)
+Theorem root_case_pinned_refuted :
+  exists p root0, checkQueuesStructureG false p = VOk root0 /\
+                  loadQueues (mkPartition s_default (Some [root0]) [] [] [] []) = Some LERoot /\
+                  exists root1, checkQueuesStructureG true p = VOk root1 /\
+                                loadQueues (mkPartition s_default (Some [root1]) [] [] [] []) = None.
+Proof. exact ConfLoad.root_case_pinned_refuted. Qed.
+Print Assumptions root_case_pinned_refuted.
+
+Theorem acl_pinned_refuted :
+  exists s, checkACL_pinned s = VOk tt /\ NewACL_ok s = false /\ checkACL s = VErr EACL.
+Proof. exact ConfLoad.acl_pinned_refuted. Qed.
+Print Assumptions acl_pinned_refuted.
+
+Theorem template_pinned_refuted :
+  (exists gm, checkResourceConfig_pinned tmpl_q = VOk gm) /\ applyConf tmpl_q = Some LEQuantity /\
+  checkResourceConfig tmpl_q = VErr EQuantity.
+Proof. exact ConfLoad.template_pinned_refuted. Qed.
+Print Assumptions template_pinned_refuted.
+
+Theorem rules_pinned_refuted :
+  checkPlacementRules_pinned (fun _ => false) [root_users] [rule_users] = VOk tt /\
+  resolvable root_users rule_users = false /\
+  checkPlacementRules (fun _ => false) [root_users] [rule_users] = VErr ERuleNotLeaf.
+Proof. exact ConfSoundRules.rules_pinned_refuted. Qed.
+Print Assumptions rules_pinned_refuted.
+
+Theorem nested_root_pinned_refuted :
+  checkChildNames_pinned (q_queues nested_root) [] = VOk tt /\
+  each checkQueues (q_queues nested_root) = VOk tt /\
+  wf_limit_queue nested_root = false /\
+  checkQueues nested_root = VErr ERootReserved.
+Proof. exact ConfLoad.nested_root_pinned_refuted. Qed.
+Print Assumptions nested_root_pinned_refuted.
